@@ -80,6 +80,9 @@ struct AQueue {
 	typedef eventpp::EventQueue<int, void(int), Pol> T;
 	static const char * name() { return std::is_same<Pol, P<Th> >::value ? "EventQueue" : "EventQueue+MixinFilter"; }
 	static const bool isQueue = true, hasFilter = !std::is_same<Pol, P<Th> >::value;
+	static const bool hasDqn = true;
+	// {DisableQueueNotify on dst; dst = src; enqueue on dst} - assignment while a guard object of the destination is alive
+	static void assignUnderDqn(T & dst, T & src, int v) { typename T::DisableQueueNotify guard(&dst); dst = src; dst.enqueue(5, v); }
 	static void add(T & o, int id) { o.appendListener(5, Fn(id)); }
 	static typename T::Handle handleAt(T & o, int pos, bool & found) { typename T::Handle h; int i = 0; found = false; o.forEach(5, [&](const typename T::Handle & hh, const typename T::Callback &) { if(i++ == pos) { h = hh; found = true; } }); return h; }
 	static bool removeHandle(T & o, const typename T::Handle & h) { return o.removeListener(5, h); }
@@ -174,6 +177,9 @@ struct AHeterQueue {
 	static bool waitFor0(T & o) { return o.waitFor(std::chrono::milliseconds(0)); }
 	static void wait(T & o) { o.wait(); }
 };
+
+template <typename A, typename = void> struct HasDqn : std::false_type {};
+template <typename A> struct HasDqn<A, typename std::enable_if<A::hasDqn>::type> : std::true_type {};
 
 // ------------------------------------------------------------------ harness
 struct Cfg {
@@ -305,6 +311,15 @@ struct Harness : HarnessBase {
 		if(i != j) { model[i].listeners = model[j].listeners; model[i].filters = model[j].filters; }
 		else checkHandlesKept(i, before, "self copy-assignment");
 	}
+	// copy assignment (from another object or from itself) while a DisableQueueNotify of the destination is alive, an enqueue
+	// inside the scope: the assignment concerns listeners, not the guard's counter - afterwards waiting and notification work
+	template <typename AA> void opAssignUnderDqn(int i, int j, std::true_type) {
+		ctx.log(fmt("{ DisableQueueNotify(O%d); O%d = O%d; enqueue on O%d }", i, i, j, i));
+		AA::assignUnderDqn(*obj[i], *obj[j], 3);
+		if(i != j) { model[i].listeners = model[j].listeners; model[i].filters = model[j].filters; }
+		model[i].pending++;
+	}
+	template <typename AA> void opAssignUnderDqn(int, int, std::false_type) {}
 	// self copy-assignment followed by a removal through a handle obtained before it
 	void opSelfAssignThenRemove(int i) {
 		std::vector<int> ord = expectedOrder(model[i]);
@@ -386,7 +401,7 @@ struct Harness : HarnessBase {
 	template <typename AA> void opFilter(int, std::false_type) {}
 
 	// ---- alphabet
-	int menu() const { int n = cfg.nSlots; return n + n + n * n + n * n + n * n + n * n + n * n + n * n + n + 2 * n + n + n + 1 + (A::isQueue ? 3 * n : 0) + (A::hasFilter ? n : 0); }
+	int menu() const { int n = cfg.nSlots; return n + n + n * n + n * n + n * n + n * n + n * n + n * n + n + 2 * n + n + n + 1 + 2 + (A::isQueue ? 3 * n : 0) + (A::hasFilter ? n : 0); }
 	void topOp(Bfs & b, int op) {
 		int n = cfg.nSlots;
 		if(op < n) { if(obj[op]) b.skip(); opDefault(op); return; } op -= n;
@@ -411,6 +426,7 @@ struct Harness : HarnessBase {
 		if(op < n) { if(!obj[op]) b.skip(); opChurn(op); return; } op -= n;
 		if(op < n) { if(!obj[op] || !cfg.nested || Heter || model[op].listeners.empty()) b.skip(); opTriggerNested(op); return; } op -= n;
 		if(op < 1) { if(!obj[0] || model[0].listeners.empty()) b.skip(); opSelfAssignThenRemove(0); return; } op -= 1;
+		if(op < 2) { if(!HasDqn<A>::value || !obj[0] || !obj[op] || model[0].pending >= 2) b.skip(); opAssignUnderDqn<A>(0, op, HasDqn<A>()); return; } op -= 2;
 		if(A::isQueue) {
 			if(op < n) { if(!obj[op] || model[op].pending >= 2) b.skip(); opEnqueue(op, std::integral_constant<bool, A::isQueue>()); return; } op -= n;
 			if(op < n) { if(!obj[op]) b.skip(); opProcess(op, std::integral_constant<bool, A::isQueue>()); return; } op -= n;
